@@ -78,7 +78,7 @@ SPELL = {"a": ["a", "A"], "b": ["B", "b"], "ab": ["aB", "AB", "ab", "Ab"]}
 # unusual names; the model decides which are legal (NBSP is left out: the
 # parser splits the directive argument on any Unicode white space)
 BAD_NAMES = ["1a", "a-b", "a.b", "é", "$a", "${B}", "$$a", "a$b", "aé", "b²",
-             "a١", "größe", "_", "a_1"]
+             "a١", "größe", "_", "a_1", "\u212a", "a\u212a"]
 ENV_SET = "ZCSIM_E1"
 ENV_UNSET = "ZCSIM_E2"
 USE_STYLES = ["$%s", "${%s}", "p${%s}q", "$%s$%s", "$%s.x", "$%s-y",
@@ -170,9 +170,12 @@ def model_walk(steps, defines, env, out, cur, stop_at_include=None,
     for st in steps:
         op = st["op"]
         if op == "define":
-            name = st["name"].lower()
-            if not model_is_name(name):
+            # legality is a property of the name AS WRITTEN (a letter or '_'
+            # followed by letters, digits, '_', all ASCII); case folding
+            # comes afterwards
+            if not model_is_name(st["name"]):
                 raise ModelFail("syntax")
+            name = st["name"].lower()
             v = model_expand(st["value"].strip(), defines, env)
             if name in defines and defines[name] != v:
                 raise ModelFail("syntax")
@@ -438,7 +441,12 @@ def generate(rng, tier, index):
     steps = structure(rng, steps)
     plan = {"prop": ID, "origin": origin, "steps": steps,
             "top": rng.choice(TOPS), "other": other_history(rng),
-            "env": {ENV_SET: "envval"}, "fault": None,
+            "env": dict({ENV_SET: "envval"}, **(
+                # environment variables spelled like the names used in the
+                # text: a reference must never fall through to them
+                {k: "envleak-" + k for k in ("a", "A", "B", "b", "aB", "AB",
+                                             "ab", "Ab")}
+                if rng.random() < 0.5 else {})), "fault": None,
             # one ConfigLoader instance for the whole sequence of loads, or
             # ZConfig.loadConfig (a new loader per load)
             "reuse_loader": rng.random() < 0.5}
@@ -551,7 +559,8 @@ def execute(plan):
             "plan": plan})
 
     with SimWorld() as w:
-        for k in (ENV_SET, ENV_UNSET):
+        for k in (ENV_SET, ENV_UNSET, "a", "A", "B", "b", "aB", "AB", "ab",
+                  "Ab"):
             os.environ.pop(k, None)
         os.environ.update(env)
         w.begin_op("load-schema")
